@@ -65,6 +65,16 @@ func mavenCore(s string) bool {
 }
 
 var findingClasses = []findingClass{
+	// hex ~>X.Y with Y>0 stops at X.(Y+1).0 instead of (X+1).0.0
+	{"F-hex-pessimistic-minor", "C05", "hex", func(kind string, rng string, vs []string) bool {
+		m := regexp.MustCompile(`^~>\s*(\d+)\.(\d+)$`).FindStringSubmatch(strings.TrimSpace(rng))
+		return kind == "shorthand-interval" && m != nil && strings.TrimLeft(m[2], "0") != ""
+	}},
+	// conan ^0.0.Z keeps only the first two parts fixed
+	{"F-conan-caret-00z", "C05", "conan", func(kind string, rng string, vs []string) bool {
+		m := regexp.MustCompile(`^\^\s*0+\.0+\.(\d+)$`).FindStringSubmatch(strings.TrimSpace(rng))
+		return kind == "shorthand-interval" && m != nil
+	}},
 	// pypi: local version labels are ignored by Compare
 	{"F-pypi-local-label", "C09", "pypi", func(kind string, rng string, vs []string) bool {
 		if kind != "reference-order" {
